@@ -602,6 +602,14 @@ pub fn drive(input: &[u8], cfg: u8, mode: Mode, cuts: &[usize], pending: &[u8], 
                         };
                         let obs = result_obs(&res);
                         drop(res);
+                        // every byte is accounted for, whoever took it: at Eof the position is the input length
+                        if obs.is_eof() && !inv.terminal && $r.buffer_position() != len as u64 {
+                            return Err(format!(
+                                "Eof is reported at position {} of an input of {} bytes after raw reads through stream() took part of it",
+                                $r.buffer_position(),
+                                len
+                            ));
+                        }
                         if inv.step(&obs, $r.buffer_position(), $r.error_position(), loc)? {
                             break;
                         }
